@@ -7,6 +7,8 @@ import (
 	"os/exec"
 	"os/signal"
 	"path/filepath"
+	"runtime"
+	"runtime/debug"
 	"sort"
 	"strconv"
 	"strings"
@@ -23,6 +25,8 @@ const (
 	ExitViolation = 4 // violation found; replay file written
 	ExitDeadlock  = 3 // a run deadlocked; plan written, process abandoned
 	ExitInternal  = 2 // harness trouble, nondeterminism, watchdog
+	// replay only: the plan violates the property, but with another signature
+	ExitOtherViolation = 5
 )
 
 // Engine describes one scenario family for one property.
@@ -73,6 +77,12 @@ type Replay struct {
 	Violation Violation       `json:"violation"`
 	TraceHash string          `json:"trace_hash"`
 	Shrunk    int             `json:"shrink_candidates_tried"`
+	// Attempts > 1: the library's own behaviour on this plan is not
+	// deterministic (for example it depends on Go map iteration order); the
+	// violation was reproduced in ReproRate of the re-executions and a replay
+	// may need up to Attempts executions to show it again.
+	Attempts  int             `json:"replay_attempts,omitempty"`
+	ReproRate string          `json:"reproduction_rate,omitempty"`
 	Trace     []string        `json:"trace,omitempty"`
 }
 
@@ -323,7 +333,7 @@ func RunWorker[P any](t *testing.T, cfg Config, eng *Engine[P]) {
 				fmt.Printf("---- new trace %016x at iteration %d\n%s\n", res.TraceHash, i, strings.Join(res.Trace, "\n"))
 			}
 		}
-		fmt.Printf("distinct traces: %v\n", seen)
+		fmt.Printf("distinct traces: %v goroutines=%d\n", seen, runtime.NumGoroutine())
 		return
 	case "replay", "trace":
 		replayMode(cfg, eng, exec, known)
@@ -340,9 +350,13 @@ func RunWorker[P any](t *testing.T, cfg Config, eng *Engine[P]) {
 		Rule: eng.NontrivialRule, Components: eng.Components, Assumptions: eng.Assumptions}
 	probes := make([]int, len(eng.ProbeNames))
 	faults := make([]int, len(eng.FaultNames))
-	dist := NewDistinct(1 << 20)
-	sched := NewDistinct(1 << 20)
-	abs := NewDistinct(1 << 20)
+	// exact sets are capped (a large heap keeps the garbage collector busy,
+	// which perturbs the spin-based settling of the scheduler); beyond the cap
+	// the HyperLogLog sketch carries the count
+	dist := NewDistinct(1 << 18)
+	sched := NewDistinct(1 << 17)
+	abs := NewDistinct(1 << 16)
+	debug.SetGCPercent(400)
 	write := func() {
 		for i, n := range eng.ProbeNames {
 			st.Probes[n] = probes[i]
@@ -420,7 +434,22 @@ func RunWorker[P any](t *testing.T, cfg Config, eng *Engine[P]) {
 		if i%64 == 5 {
 			res2 := exec(plan, false)
 			st.Rechecks++
-			if res2.TraceHash != res.TraceHash {
+			unknown := func(rr *Result) bool {
+				for k := range rr.Violations {
+					if rr.Violations[k].Property == eng.Property && matchKnown(known, &rr.Violations[k]) == nil {
+						return true
+					}
+				}
+				return false
+			}
+			if res2.TraceHash != res.TraceHash && (unknown(res) || unknown(res2)) {
+				// the two executions differ and at least one violates the
+				// property: judge the violating one (the library itself may
+				// behave nondeterministically on this plan)
+				if !unknown(res) {
+					res = res2
+				}
+			} else if res2.TraceHash != res.TraceHash {
 				st.RecheckFail++
 				b, _ := json.Marshal(plan)
 				st.Note = fmt.Sprintf("nondeterministic replay of plan %s: %x vs %x", b, res.TraceHash, res2.TraceHash)
@@ -449,10 +478,29 @@ func RunWorker[P any](t *testing.T, cfg Config, eng *Engine[P]) {
 		}
 		// minimise while the same signature persists
 		sig := hit.Sig()
-		still := func(c *P) bool {
-			r := exec(c, false)
+		failsOnce := func(c *P, trace bool) (*Result, *Violation) {
+			r := exec(c, trace)
 			for k := range r.Violations {
 				if r.Violations[k].Sig() == sig {
+					return r, &r.Violations[k]
+				}
+			}
+			return r, nil
+		}
+		// how reliably does the original plan reproduce?
+		repro := 0
+		for k := 0; k < 6; k++ {
+			if _, v := failsOnce(plan, false); v != nil {
+				repro++
+			}
+		}
+		tries := 1
+		if repro < 6 {
+			tries = 4
+		}
+		still := func(c *P) bool {
+			for k := 0; k < tries; k++ {
+				if _, v := failsOnce(c, false); v != nil {
 					return true
 				}
 			}
@@ -463,11 +511,17 @@ func RunWorker[P any](t *testing.T, cfg Config, eng *Engine[P]) {
 			valid = func(*P) bool { return true }
 		}
 		min, tried := Shrink(plan, valid, still, cfg.ShrinkBudget)
-		final := exec(min, true)
+		var final *Result
 		var fv *Violation
-		for k := range final.Violations {
-			if final.Violations[k].Sig() == sig {
-				fv = &final.Violations[k]
+		fails, execs := 0, 0
+		for k := 0; k < 40 && (fv == nil || execs < 10); k++ {
+			rr, v := failsOnce(min, true)
+			execs++
+			if v != nil {
+				fails++
+				if fv == nil {
+					final, fv = rr, v
+				}
 			}
 		}
 		if fv == nil {
@@ -479,10 +533,30 @@ func RunWorker[P any](t *testing.T, cfg Config, eng *Engine[P]) {
 		pb, _ := json.Marshal(min)
 		rp := Replay{Property: eng.Property, Engine: eng.Name, VerifSeed: cfg.Seed, Worker: cfg.Worker, Run: i, PlanSeed: pseed,
 			Plan: pb, Violation: *fv, TraceHash: fmt.Sprintf("%016x", final.TraceHash), Shrunk: tried, Trace: final.Trace}
+		if fails < execs {
+			rp.Attempts = 60 * execs / fails
+			if rp.Attempts > 2000 {
+				rp.Attempts = 2000
+			}
+			rp.ReproRate = fmt.Sprintf("%d of %d re-executions", fails, execs)
+			rp.TraceHash = ""
+		}
 		os.MkdirAll(cfg.ReplayDir, 0o755)
 		path := filepath.Join(cfg.ReplayDir, fmt.Sprintf("%s-seed%d-w%d-%016x.json", eng.Property, cfg.Seed, cfg.Worker, final.TraceHash))
 		b, _ := json.MarshalIndent(rp, "", " ")
 		os.WriteFile(path, b, 0o644)
+		// the plan as generated, for the driver's fall-back: if the minimised
+		// plan does not fail in a fresh process (the library may keep state
+		// across runs inside this worker), the original one is tried and
+		// minimised with one child process per candidate
+		ob, _ := json.Marshal(plan)
+		orp := rp
+		orp.Plan, orp.TraceHash, orp.Trace, orp.Shrunk = ob, "", nil, 0
+		if orp.Attempts < 4 {
+			orp.Attempts = 4
+		}
+		obb, _ := json.MarshalIndent(orp, "", " ")
+		os.WriteFile(path+".orig", obb, 0o644)
 		st.Violations++
 		st.ReplayPath = path
 		st.ViolationSig = sig
@@ -518,6 +592,20 @@ func replayMode[P any](cfg Config, eng *Engine[P], exec func(*P, bool) *Result, 
 		os.Exit(ExitInternal)
 	}
 	res := exec(p, true)
+	want0 := rp.Violation.Sig()
+	for k := 1; k < rp.Attempts; k++ {
+		hit := false
+		for _, v := range res.Violations {
+			if v.Sig() == want0 {
+				hit = true
+			}
+		}
+		if hit {
+			fmt.Printf("REPLAY-NOTE reproduced at attempt %d of at most %d (recorded rate: %s)\n", k, rp.Attempts, rp.ReproRate)
+			break
+		}
+		res = exec(p, true)
+	}
 	out := map[string]any{"trace_hash": fmt.Sprintf("%016x", res.TraceHash), "violations": res.Violations, "trace": res.Trace}
 	ob, _ := json.MarshalIndent(out, "", " ")
 	if cfg.Out != "" {
@@ -530,17 +618,18 @@ func replayMode[P any](cfg Config, eng *Engine[P], exec func(*P, bool) *Result, 
 	for _, v := range res.Violations {
 		if v.Sig() == want {
 			if rp.TraceHash != "" && rp.TraceHash != fmt.Sprintf("%016x", res.TraceHash) {
-				fmt.Fprintf(os.Stderr, "REPLAY violation reproduced but trace hash differs (%s vs %016x)\n", rp.TraceHash, res.TraceHash)
-				os.Exit(ExitInternal)
+				// the same violation in a fresh process is conclusive; the
+				// history differs in detail (noted, not fatal)
+				fmt.Printf("REPLAY-NOTE violation reproduced, trace hash differs (%s vs %016x)\n", rp.TraceHash, res.TraceHash)
 			}
-			fmt.Printf("REPLAY-REPRODUCED %s: %s\n", v.Sig(), v.Detail)
+			fmt.Printf("REPLAY-REPRODUCED %s: %s\n", v.Sig(), firstLines(v.Detail, 12))
 			os.Exit(ExitViolation)
 		}
 	}
 	for _, v := range res.Violations {
 		if v.Property == eng.Property && matchKnown(known, &v) == nil {
-			fmt.Printf("REPLAY-OTHER %s: %s\n", v.Sig(), v.Detail)
-			os.Exit(ExitViolation)
+			fmt.Printf("REPLAY-OTHER %s: %s\n", v.Sig(), firstLines(v.Detail, 12))
+			os.Exit(ExitOtherViolation)
 		}
 	}
 	fmt.Println("REPLAY-PASS")
@@ -581,7 +670,7 @@ func shrinkChildMode[P any](cfg Config, eng *Engine[P]) {
 			rp.Trace = dl.Trace
 			return true
 		}
-		return false
+		return code == ExitViolation // the replay child saw the same signature
 	}
 	valid := eng.Valid
 	if valid == nil {
@@ -592,7 +681,12 @@ func shrinkChildMode[P any](cfg Config, eng *Engine[P]) {
 	rp.Plan = pb
 	rp.Shrunk = tried
 	os.MkdirAll(cfg.ReplayDir, 0o755)
-	path := filepath.Join(cfg.ReplayDir, fmt.Sprintf("%s-seed%d-deadlock-%016x.json", eng.Property, cfg.Seed, SplitMix64(uint64(len(pb)))^hashBytes(pb)))
+	kind := "deadlock"
+	if rp.Violation.Kind != "deadlock" {
+		kind = "child"
+	}
+	rp.TraceHash = ""
+	path := filepath.Join(cfg.ReplayDir, fmt.Sprintf("%s-seed%d-%s-%016x.json", eng.Property, cfg.Seed, kind, SplitMix64(uint64(len(pb)))^hashBytes(pb)))
 	ob, _ := json.MarshalIndent(rp, "", " ")
 	os.WriteFile(path, ob, 0o644)
 	fmt.Printf("SHRUNK %s\n", path)
